@@ -114,7 +114,10 @@ def m_question_branch(ex, a, t):
     r = a[0]
     if r.variant == 'Ok': return Enum('ControlFlow', 'Continue', [r.f[0].v])
     return Enum('ControlFlow', 'Break', [Enum('Result', 'Err', [r.f[0].v])])
-def m_from_residual(ex, a, t): return a[0]
+def m_from_residual(ex, a, t):
+    # `?` on a Result inside a function returning Poll<Result<..>> wraps the residual in Poll::Ready
+    if t.startswith('<Poll<'): return Enum('Poll', 'Ready', [a[0]])
+    return a[0]
 def m_identity(ex, a, t): return a[0]
 def m_opt_is_some_and(ex, a, t): raise Unknown('is_some_and')
 def m_box_new(ex, a, t): return BoxObj(a[0])
@@ -181,3 +184,6 @@ def m_res_unwrap_or(ex, a, t): return a[0].f[0].v if a[0].variant == 'Ok' else a
 MODELS[:0] = [(r'(?:^|::)Atomic(Usize)?(::<.*>)?::fetch_update::<', m_fetch_update),
               (r'^<usize as Ord>::max$|^std::cmp::max::<usize>$|^core::cmp::Ord::max$', m_ord_max), (r'^<usize as Ord>::min$|^std::cmp::min::<usize>$', m_ord_min),
               (r'num::<impl usize>::saturating_sub$', m_sat_sub), (r'(?:^|::)Result::<.*>::unwrap$', m_res_unwrap), (r'(?:^|::)Result::<.*>::unwrap_or$', m_res_unwrap_or)]
+
+import mirsym as _mm
+_mm.LATE_MODELS.add(m_identity)
